@@ -838,7 +838,8 @@ def run(ctx):
         "trusted_base": [
             "Coq 8.16.1 kernel; cluster theorems closed under the global context; touch theorems use the stdlib real-number axioms listed in axioms_used",
             "extraction (ExtrOcamlBasic, ExtrOcamlNativeString only) + ocaml/cluster_driver.ml (touch matrix passed as an OCaml closure over the exported string)",
-            "harness/c07_cluster.c builds the context through the private API; the touch predicate is the implementation's own, exported as a matrix; its relation to the exact predicate is tested outside an 8u margin, proved only under rounding models (C07_touch_float_sound_partial, C07_ftouch_flocq_partial with Flocq binary64 roundings, C07_dtouch_sound_partial)",
+            "harness/c07_cluster.c builds the context through the private API; the clustering theorems take the touch predicate from the implementation, exported as a matrix; its relation to the exact predicate is proved end to end for the double variant (C07_ftouch_b64_overlap / _separated / _guard / _lhs_no_overflow on Flocq binary64, C07_ftouch_subnormal_refuted) and only under a rounding model for DPE/MP (C07_dtouch_sound_partial) plus exact dyadic testing outside the 8u margin",
+            "binary64 semantics: gcc maps C double arithmetic and sqrt to IEEE binary64 round-to-nearest-even operations (-ffp-contract=off, SSE2), (double) of an int is exact: checked bit for bit against Flocq's operations on every run (bin/ftouch vs harness/c07_ftouch.c: both touch results, modulus, left side, guard), not proved; NaN payloads/signs not modelled; the libm-cabs configuration (MPS_USE_BUILTIN_COMPLEX unset) is not the one built and is not modelled",
             "mps_mcluster modelled at block-merge granularity (every order of base selection); interleavings explored with harness/vf_sched.c (its model of mutex/condvar semantics is trusted; code between two pthread calls runs atomically, sequentially consistent memory) plus real threads; not proved below that granularity",
             "python predicate (union-find components, partition, refinement) in checks/C07.py",
         ],
@@ -846,5 +847,5 @@ def run(ctx):
     return ctx.finish("proof", cov, [
         "previous clusterization is a partition of 0..n-1 (required by the C code as well)",
         "touch predicate symmetric (checked on every exported matrix)",
-        "double touch: standard rounding model, no overflow/underflow; DPE/MP touch: correspondence only",
+        "double touch: 1 <= n < 2^30 (the int 2*n does not overflow), radii non-negative and finite for the exactness claims; DPE/MP touch: rounding model + correspondence only",
     ])
